@@ -93,6 +93,35 @@ PROPS = {
         ],
         "assumptions": ["LazyBigint operations by the contracts unit V-int proves (canonical representation of the mathematical result)"],
     },
+    "C16": {
+        "level": "proof",
+        "units": [
+            {"kind": "verus", "unit": "gslice"},
+        ],
+        "unreached": [
+            "every other adaptor of XGenerator::_iter (they run user callbacks through the evaluator and are iterator towers), laziness / look-ahead, re-iterability, chain flattening, the consumers, and the adaptors written in the xray language",
+        ],
+        "assumptions": ["std::iter::Iterator::{skip, take} by their documented meaning on a sequence view (finite-prefix model of a stream)",
+                        "Option::iter().chain(..).min().cloned() on two Options is the smaller present value (R-optmin)"],
+    },
+    "C19": {
+        "level": "proof",
+        "units": [
+            {"kind": "verus", "unit": "sort"},
+            {"kind": "verus", "unit": "fmt"},
+            {"kind": "kani-mini", "crate": "sort", "harnesses": [
+                {"harness": "trysort::harness::insert_head_b5", "fn": "src/util/trysort.rs :: insert_head (unsafe, InsertionHole)",
+                 "bound": "slices of at most 5 elements; comparator failing (error value or violation) at any call", "timeout": 600},
+            ]},
+        ],
+        "unreached": [
+            "trysort::merge (Kani counterexamples did not replay natively: verifier imprecision) and the driver loops of try_sort (no CBMC verdict in 25 min)",
+            "util/try_heap.rs, quickselect / n_largest / sorted (call the comparator through the evaluator)",
+            "derived eq/hash/cmp/to_str of containers and the relational operators (add_dyn_func factories building code at compile time)",
+            "the format-specifier grammar (regex) and the numeric formatting in builtin/{int,floats,str}.rs",
+        ],
+        "assumptions": ["str::repeat by its documented meaning (assume_specification)"],
+    },
     "C14": {
         "level": "proof",
         "units": [
@@ -165,6 +194,18 @@ CLAIMS = {
         "technique": "contract-based deductive verification: Verus contracts on the match arms of XSequence::{len, get} for the Range representation, extracted from src/builtin/sequence.rs on every run",
         "text": "Narrow: for the lazy Range representation, len is proved overflow-free and equal to the number of elements the range denotes for every (start, end, step) the constructor's guard admits, and get(i) is proved to be start + i*step as an exact integer; the count characterisation is a proved lemma.",
         "note": "Index arithmetic of one representation only; slicing/chaining composition, index normalisation and every native are listed as unreached in the evidence. LazyBigint by V-int's contracts.",
+    },
+    "C16": {
+        "engine": "vx+verus",
+        "technique": "contract-based deductive verification: Verus contracts on the real text of the Slice arm of XGenerator::_iter and of the merge arithmetic (start, end, guard) of XGenerator::slice",
+        "text": "Narrow (one mechanism): skip/take composition. `Slice(inner, start, end)` is proved to yield exactly elements [start, end) of the inner stream, the merged bounds of nested slices are proved to be the composition (lemma over the window view) and overflow-free under the guard the code tests.",
+        "note": "Every other adaptor, laziness and re-iterability are listed as unreached; std skip/take are axiomatised on a finite-prefix sequence view.",
+    },
+    "C19": {
+        "engine": "vx+verus",
+        "technique": "contract-based deductive verification: Verus contracts on the real text of try_sort's `collapse` and of FillSpecs::{get_filler,get_alignment,fillers}; bounded Kani harness on the unsafe insert_head",
+        "text": "Narrow (two mechanisms): the run-stack decision of the merge sort is proved index- and overflow-safe and equal to the documented TimSort rule for every stack; the padding computation is proved to produce exactly (width - len) copies of the filler in the slot the alignment prescribes (centre: floor half before); the unsafe insertion step is checked (bounded, listed separately) to keep every element exactly once and to hand on a comparator failure.",
+        "note": "Coherence of derived eq/hash/cmp/to_str, the relational operators, the format grammar, merge and the sort driver are listed as unreached.",
     },
     "C14": {
         "engine": "vx+verus",
